@@ -144,6 +144,64 @@ def build_index(flat):
     return idx
 
 
+def lazy_ok(flat):
+    """Hashed directories whose descendants are files only (their listing object then equals the entries)."""
+    if not flat:
+        return False
+    hashed = [k for k, (h, m) in flat.items() if m == ("d",) and h]
+    if not hashed:
+        return False
+    for d in hashed:
+        for k, (h, m) in flat.items():
+            if len(k) > len(d) and k[: len(d)] == d and (m == ("d",) or not h or h[0] != "md5"):
+                return False
+    return True
+
+
+_LAZY = {}
+
+
+def lazy_view(flat):
+    """The same index with every hashed directory as ONE unloaded entry backed by an object storage, seen
+    through an all-pass view: diff has to load it on the way."""
+    import os
+
+    from dvc_data.hashfile.hash_info import HashInfo
+    from dvc_data.hashfile.meta import Meta
+    from dvc_data.index import DataIndex, DataIndexEntry, ObjectStorage
+    from dvc_data.index import view as iview
+
+    from ..lab import make_odb, put_raw
+    from ..world import session_root
+
+    if "odb" not in _LAZY:
+        _LAZY["odb"] = make_odb("base", os.path.join(session_root(), f"c08-store-{os.getpid()}"))
+    odb = _LAZY["odb"]
+    hashed = [k for k, (h, m) in flat.items() if m == ("d",) and h]
+    idx = DataIndex()
+    for k, (h, m) in flat.items():
+        if any(len(k) > len(d) and k[: len(d)] == d for d in hashed):
+            continue
+        if k in hashed:
+            children = {"/".join(kk[len(k):]): flat[kk][0][1] for kk in flat if len(kk) > len(k) and kk[: len(k)] == k}
+            put_raw(odb, h[1], ref.tree_bytes(children))
+            idx[k] = DataIndexEntry(key=k, meta=Meta(isdir=True), hash_info=HashInfo("md5", h[1]))
+            continue
+        meta = None
+        if m is not None:
+            meta = Meta(isdir=True) if m[0] == "d" else Meta(size=m[1], isexec=m[2], inode=m[3] if len(m) > 3 else None)
+        hi = HashInfo(h[0], h[1]) if h else (HashInfo("md5", None) if h == () else None)
+        idx[k] = DataIndexEntry(key=k, meta=meta, hash_info=hi, loaded=True if m == ("d",) else None)
+    idx.storage_map.add_cache(ObjectStorage((), odb))
+    return iview(idx, lambda _k: True)
+
+
+def check_lazy_views(fo, fn, opt):
+    io = lazy_view(fo) if fo is not None else None
+    in_ = lazy_view(fn) if fn is not None else None
+    return check_pair(fo, fn, io, in_, opt)[0]
+
+
 # ---- reference --------------------------------------------------------------
 
 OPTS = []
@@ -153,7 +211,12 @@ for mode in ("default", "hash_only", "meta_only"):
             for wr in (False, True):
                 if wr and mode == "meta_only":
                     continue
-                OPTS.append((mode, wu, sh, wr))
+                OPTS.append((mode, wu, sh, wr, None))
+# restricted roots (disjoint ones: overlapping roots are walked once each, which the property does not define)
+for mode in ("default", "hash_only"):
+    for wu in (False, True):
+        for roots in ((("a",),), (("a",), ("b",)), (("b",), ("a", "x"))):
+            OPTS.append((mode, wu, False, False, roots))
 
 
 def eff_meta(ent):
@@ -221,12 +284,13 @@ def hash_of(flat, k):
 def check_pair(fo, fn, io, in_, opt):
     from dvc_data.index.diff import diff
 
-    mode, wu, sh, wr = opt
+    mode, wu, sh, wr, roots = (tuple(opt) + (None,))[:5]
     viol = []
+    kw = {"roots": [tuple(r) for r in roots]} if roots else {}
     try:
         got = list(
             diff(io, in_, with_renames=wr, with_unchanged=wu, hash_only=mode == "hash_only",
-                 meta_only=mode == "meta_only", shallow=sh)
+                 meta_only=mode == "meta_only", shallow=sh, **kw)
         )
     except Exception as e:  # noqa: BLE001
         return [(f"diff-raises-{type(e).__name__}/{mode}", repr(e))], "exc"
@@ -239,10 +303,15 @@ def check_pair(fo, fn, io, in_, opt):
             renames.append((ok, nk, c.old.hash_info, c.new.hash_info))
         else:
             flatgot[(c.typ, ok, nk)] += 1
-    optname = f"{mode}{'+unchanged' if wu else ''}{'+shallow' if sh else ''}"
+    optname = f"{mode}{'+unchanged' if wu else ''}{'+shallow' if sh else ''}{'+roots' if roots else ''}"
     if sh:
         return check_shallow(fo, fn, mode, wu, flatgot, renames, optname, viol), len(got)
     base = ref_diff(fo, fn, mode, wu, False)
+    if roots:
+        def in_roots(k):
+            return any(tuple(k[: len(r)]) == tuple(r) for r in roots)
+
+        base = Counter({c: n for c, n in base.items() if in_roots(c[1] if c[1] is not None else c[2])})
     if mode == "hash_only" and not wu and fo is not None and fn is not None:
         # Directory entries beneath a directory whose content-derived hash is equal on
         # both sides are not changes (the files are the same): exempt on both sides.
@@ -420,6 +489,19 @@ def run_case(case):
             for k in fo
         ):
             res["vac"]["shortcut_candidates"] += 1
+        if (fo is None or lazy_ok(fo)) and (fn is None or lazy_ok(fn)):
+            for opt in (("hash_only", False, False, False, None), ("hash_only", True, False, False, None)):
+                viol = check_lazy_views(fo, fn, opt)
+                res["n"] += 1
+                res["trans"] += 1
+                res["vac"]["lazy_view_diffs"] = res["vac"].get("lazy_view_diffs", 0) + 1
+                for sig, detail in viol:
+                    sig = sig + "/lazy-views"
+                    if sig in sigs:
+                        continue
+                    sigs.add(sig)
+                    res["viol"].append((sig, detail, {"tier": case["tier"], "i": i, "j": j, "opt": list(opt[:4]) + [None],
+                                                      "lazy": True}))
         for opt in OPTS:
             io = build_index(fo) if fo is not None else None
             in_ = build_index(fn) if fn is not None else None
@@ -434,7 +516,7 @@ def run_case(case):
                     res["vac"]["viol:" + sig] = res["vac"].get("viol:" + sig, 0) + 1
                     continue
                 sigs.add(sig)
-                res["viol"].append((sig, detail, {"tier": case["tier"], "i": i, "j": j, "opt": list(opt)}))
+                res["viol"].append((sig, detail, {"tier": case["tier"], "i": i, "j": j, "opt": [list(x) if isinstance(x, tuple) else x for x in opt]}))
     res["outcomes"] = sorted(res["outcomes"])[:200]
     res["nontrivial"] = sorted(res["nontrivial"])
     if i == 7:
@@ -451,7 +533,12 @@ def replay(case):
     in_ = build_index(fn) if fn is not None else None
     print("old:", fo)
     print("new:", fn)
-    return check_pair(fo, fn, io, in_, tuple(case["opt"]))[0]
+    opt = tuple(case["opt"])
+    if len(opt) > 4 and opt[4]:
+        opt = opt[:4] + (tuple(tuple(r) for r in opt[4]),)
+    if case.get("lazy"):
+        return [(s_ + "/lazy-views", d) for s_, d in check_lazy_views(fo, fn, opt)]
+    return check_pair(fo, fn, io, in_, opt)[0]
 
 
 def run(ctx):
@@ -474,7 +561,7 @@ def run(ctx):
         "hash_only without with_unchanged: directory entries beneath a directory whose "
         "content-derived hash is equal on both sides are not changes",
     ]
-    ctx.require("renames_found", "shortcut_candidates", "kind_change_pairs")
+    ctx.require("renames_found", "shortcut_candidates", "kind_change_pairs", "lazy_view_diffs")
     cs = [{"tier": ctx.tier, "i": i} for i in range(-1, len(flats))]
     ctx.run_cases("run_case", cs, chunksize=1, det=3)
     ctx.extra["distinct_indexes"] = len(flats)
